@@ -320,7 +320,11 @@ def shrink(check, case, sig, budget):
             again = True
             while again and used[0] < budget:
                 again = False
-                for cand in simplify(copy.deepcopy(best)):
+                try:
+                    cands = list(simplify(copy.deepcopy(best)))
+                except Exception:  # noqa: BLE001 - a case shape the simplifier does not know: keep what the list shrinker found
+                    cands = []
+                for cand in cands:
                     if used[0] >= budget:
                         break
                     if cand != best and reproduces(cand):
